@@ -297,8 +297,17 @@ func (c *Conn) closeNoNotify(t xmlstream.Encoder) error {
 
 	c.handler.rmStream(c.stanzaWriter.sid)
 
-	// Flush any remaining data to be written.
-	err := c.flush(t)
+	// Flush any remaining data to be written, unless a Write or Flush is in
+	// progress on another goroutine: it owns the buffers (and may be waiting for
+	// an acknowledgement that only the caller of this function can deliver), so
+	// what is still buffered is dropped with the stream.
+	if !c.writeLock.TryLock() {
+		close(c.readReady)
+		return nil
+	}
+	defer c.writeLock.Unlock()
+	c.stanzaWriter.t = t
+	err := c.writeBuf.Flush()
 	if err != nil {
 		return err
 	}
